@@ -229,6 +229,8 @@ class Circuit:
         # When grouping use unpacked circuit
         if group:
             circuit = circuit_copy
+        else:
+            circuit = circuit.copy()
         spec = circuit.__circuit_spec
         # Check circuit size is valid
         n_heralds = len(circuit.heralds["input"])
